@@ -37,7 +37,9 @@ let cmd_bn c =
 let cmd_hu c =
   let sc = next_z c in
   let pts = next_list c next_zpair in
-  out "crop" (s_list s_zpair (hyperuniform_crop sc pts))
+  out "keep" (s_list (fun p -> s_bool (inside_open_unit sc p)) pts);
+  out "crop" (s_list s_zpair (hyperuniform_crop sc pts));
+  out "unit" (s_list (fun (a, b) -> s_q a ^ " " ^ s_q b) (hyperuniform sc pts))
 
 let cmd_un c =
   let n = next_nat c in
